@@ -173,17 +173,87 @@ theorem finishSess_ok (cfg : Cfg) (codec : Codec) (crc : Checksum) (bs : Nat) (h
   · rw [hfile, rewriteHeader_render]
   · exact ⟨hv', hS'.nm, hS'.bc, hS'.ec, hS'.enc, hS'.size, hS'.cnt, hS'.below⟩
 
-/-- `openExistingFile` on a file the writer left behind -/
+/-- the first four bytes of a written block are its compressed size -/
+theorem csize_of_encodeBlock (codec : Codec) (crc : Checksum) (b : List Entry) (rest : Bytes) (hg : GoodBlock b) :
+    unle ((encodeBlock codec crc b ++ rest).take 4) = (codec.enc (encodeEntries b)).length ∧
+    (encodeBlock codec crc b).length = 16 + (codec.enc (encodeEntries b)).length := by
+  have hu : (encodeEntries b).length < 2 ^ 31 + 2 ^ 17 := by rw [encodeEntries_length]; exact hg.size
+  have hc : (codec.enc (encodeEntries b)).length < 2 ^ 32 := enc_length_lt codec _ hu
+  constructor
+  · have : (encodeBlock codec crc b ++ rest).take 4 = le 4 (codec.enc (encodeEntries b)).length := by
+      simp only [encodeBlock, encodeBlockHeader, List.append_assoc]
+      exact take_append_len _ _ 4 (by simp)
+    rw [this]
+    exact unle_le_of_lt (by simpa using hc)
+  · simp [encodeBlock, encodeBlockHeader_length]
+
+/-- on a block area the writer produced, the torn-tail walk reaches the end: nothing is cut -/
+theorem walkEnd_renderBlocks (codec : Codec) (crc : Checksum) (blocks : List (List Entry))
+    (hg : ∀ b ∈ blocks, GoodBlock b) :
+    ∀ fuel, blocks.length < fuel → walkEnd fuel (renderBlocks codec crc blocks) = (renderBlocks codec crc blocks).length := by
+  induction blocks with
+  | nil => intro fuel hf; cases fuel with
+    | zero => omega
+    | succ f => simp [renderBlocks, walkEnd, shorterThan]
+  | cons b bs ih =>
+    intro fuel hf
+    cases fuel with
+    | zero => omega
+    | succ f =>
+      have hb := hg b (by simp)
+      have hbs : ∀ x ∈ bs, GoodBlock x := fun x hx => hg x (by simp [hx])
+      have hr : renderBlocks codec crc (b :: bs) = encodeBlock codec crc b ++ renderBlocks codec crc bs := by
+        simp [renderBlocks]
+      obtain ⟨hcs, hlen⟩ := csize_of_encodeBlock codec crc b (renderBlocks codec crc bs) hb
+      rw [hr]
+      simp only [walkEnd, shorterThan_eq, decide_eq_true_eq, hcs]
+      rw [if_neg (by simp [hlen]; omega)]
+      rw [if_neg (by simp [List.length_drop, hlen]; omega)]
+      rw [← hlen, drop_append_len _ _ _ rfl, ih hbs f (by simp at hf; omega)]
+      simp
+
+theorem renderBlocks_length_ge (codec : Codec) (crc : Checksum) (blocks : List (List Entry)) :
+    16 * blocks.length ≤ (renderBlocks codec crc blocks).length := by
+  induction blocks with
+  | nil => simp [renderBlocks]
+  | cons b bs ih =>
+    have : renderBlocks codec crc (b :: bs) = encodeBlock codec crc b ++ renderBlocks codec crc bs := by simp [renderBlocks]
+    rw [this]
+    simp only [List.length_append, List.length_cons, encodeBlock, encodeBlockHeader_length]
+    omega
+
+/-- `openExistingFile` on a file the writer left behind: the session starts from the header, and
+    the torn-tail cut (if the code has it) leaves the file exactly as it is -/
 theorem openExisting_ok (cfg : Cfg) (codec : Codec) (crc : Checksum) (bs : Nat) (name file : Bytes)
     (blocks : List (List Entry)) (hF : FileOK codec crc name file blocks) :
-    ∃ s, openExisting file = some s ∧ SessOK cfg bs name s ∧ s.bufRev = [] := by
-  obtain ⟨⟨hdr, hfile, hv, hn⟩, _⟩ := hF
+    ∃ s, openExisting cfg file = some (file, s) ∧ SessOK cfg bs name s ∧ s.bufRev = [] := by
+  obtain ⟨⟨hdr, hfile, hv, hn⟩, hgood⟩ := hF
   have hl := encodeFileHeader_length hdr
   refine ⟨⟨hdr, [], 0, 0, hdr.blockCount, hdr.entryCount⟩, ?_, ?_, rfl⟩
-  · unfold openExisting
-    rw [hfile]
-    unfold render
-    rw [if_neg (by simp [hl]), take_append_len _ _ 64 hl, decodeFileHeader_encode hdr hv]
+  · have hdrop : file.drop hdr.dataStart = renderBlocks codec crc blocks := by
+      rw [hfile]; exact drop_dataStart hdr name _ hn
+    have hds : hdr.dataStart + (renderBlocks codec crc blocks).length = file.length := by
+      have := congrArg List.length hdrop
+      simp only [List.length_drop] at this
+      have hle : hdr.dataStart ≤ file.length := by
+        rw [hfile]
+        rcases hn with ⟨h3, hnl⟩ | ⟨h2, hnl⟩
+        · simp [FileHeader.dataStart, h3, hnl, render, hl]
+        · subst hnl; simp [FileHeader.dataStart, h2, render, hl]
+      omega
+    unfold openExisting
+    rw [if_neg (by rw [hfile]; simp [render, hl])]
+    have hd : decodeFileHeader (file.take 64) = .ok hdr := by
+      rw [hfile]; unfold render; rw [take_append_len _ _ 64 hl, decodeFileHeader_encode hdr hv]
+    rw [hd]
+    simp only
+    rw [if_neg (by omega)]
+    have hw := walkEnd_renderBlocks codec crc blocks hgood (file.length / 16 + 1) (by
+      have := renderBlocks_length_ge codec crc blocks
+      have : 16 * blocks.length ≤ file.length := by omega
+      omega)
+    rw [hdrop, hw, hds, List.take_of_length_le (Nat.le_refl _)]
+    simp
   · exact ⟨hv, hn, hv.blockCount, hv.entryCount, by simp, by simp [sizeSum], by simp, bufBound_nil cfg bs⟩
 
 /-- The invariant that ties the disk, the buffer and the acknowledged writes together. -/
